@@ -181,6 +181,71 @@ def r08_1(ctx, repo):
     ctx.floor(rule, 18)
 
 
+def _store_width(fn, store):
+    """For `sel[lo:hi] = ~mask` with `sel = np.ones/zeros(L)`:
+    -> (block is the last P entries?, P, width, L) with P = the wrapper's
+    parameter count (length of the mask); None if not evaluable."""
+    import sympy as sp
+    t = store.targets[0]
+    if not (isinstance(t.value, ast.Name) and isinstance(t.slice, ast.Slice)
+            and t.slice.step is None):
+        return None
+    base = t.value.id
+    defs = [a for a in ast.walk(fn) if isinstance(a, ast.Assign)
+            and U(a.targets[0]) == base and isinstance(a.value, ast.Call)
+            and U(a.value.func) in ('np.ones', 'np.zeros', 'np.empty')
+            and a.value.args and a.lineno < store.lineno]
+    if not defs:
+        return None
+    P = sp.Symbol('P', positive=True, integer=True)
+
+    def ev(e, depth=0):
+        if U(e) == 'self._n_parameters':
+            return P
+        if isinstance(e, ast.Constant) and isinstance(e.value, int):
+            return sp.Integer(e.value)
+        if isinstance(e, ast.UnaryOp) and isinstance(e.op, ast.USub):
+            v = ev(e.operand, depth)
+            return None if v is None else -v
+        if isinstance(e, ast.BinOp) and isinstance(e.op, (ast.Add, ast.Sub)):
+            a, b = ev(e.left, depth), ev(e.right, depth)
+            if a is None or b is None:
+                return None
+            return a + b if isinstance(e.op, ast.Add) else a - b
+        if isinstance(e, ast.Name) and depth < 3:
+            d = [a for a in ast.walk(fn) if isinstance(a, ast.Assign)
+                 and U(a.targets[0]) == e.id and a.lineno < store.lineno]
+            if len(d) == 1:
+                v = ev(d[0].value, depth + 1)
+                if v is not None:
+                    return v
+            return sp.Symbol(e.id, positive=True, integer=True)
+        if isinstance(e, (ast.Subscript, ast.Attribute, ast.Call)):
+            return sp.Symbol(U(e).replace(' ', ''), positive=True,
+                             integer=True)
+        return None
+    L = ev(defs[-1].value.args[0])
+    if L is None:
+        return None
+
+    def pos(b, default):
+        if b is None:
+            return default
+        v = ev(b)
+        if v is None:
+            return None
+        # a syntactically negative bound counts from the end
+        if isinstance(b, ast.UnaryOp) and isinstance(b.op, ast.USub):
+            return L + v
+        return v
+    lo, hi = pos(t.slice.lower, sp.Integer(0)), pos(t.slice.upper, L)
+    if lo is None or hi is None:
+        return None
+    width = sp.expand(hi - lo)
+    ok = sp.expand(width - P) == 0 and sp.expand(hi - L) == 0
+    return ok, P, width, L
+
+
 def r08_2(ctx, repo):
     """Filtering of returned sensitivities."""
     rule = 'R08.2'
@@ -215,9 +280,22 @@ def r08_2(ctx, repo):
                     'parameters are returned' % U(n.slice))
         for n in stores:
             if U(n.value) == NOTMASK:
+                w = _store_width(fn, n)
+                if w is not None and w[0] is False:
+                    ctx.violation(
+                        rule, repo.loc(n, cls, fn.name), construct,
+                        'selection block',
+                        '`%s` writes the %s entries of ~mask into a block of '
+                        '%s entries of the selection (total length %s): the '
+                        'free/fixed flags are not aligned with the wrapped '
+                        'model\'s own parameters at the end of the gradient'
+                        % (norm_stmt(n)[:60], w[1], w[2], w[3]))
+                    continue
                 n_ok += 1
                 ctx.ok(rule, repo.loc(n, cls, fn.name), construct,
-                       'selection mask `%s` built from ~mask' % U(n)[:60])
+                       'selection mask `%s` built from ~mask%s' % (
+                           U(n)[:60], ', block = last n_parameters entries'
+                           if w is not None else ''))
             else:
                 ctx.violation(
                     rule, repo.loc(n, cls, fn.name), construct,
@@ -225,7 +303,10 @@ def r08_2(ctx, repo):
                     'the selection of returned sensitivities is built from '
                     '`%s` instead of `~self._fixed_params_mask`'
                     % U(n.value))
-        if n_ok == 0:
+        n_found = len(ctx.findings)
+        if n_ok == 0 and not any(
+                f['rule'] == rule and f['construct'] == construct
+                for f in ctx.findings):
             ctx.violation(
                 rule, repo.loc(fn, cls, fn.name), construct, 'no filter',
                 'compute_sensitivities returns the wrapped model\'s gradient '
